@@ -15,16 +15,20 @@ TRUSTED_EXTRA = ["C16: (i+1)**(-learning_rate) is libm pow on both sides; accept
 ASSUMPTIONS = ["the acceptance probability handed to the tuner is exp(E_current - E_proposed) (checked against the snapshots)"]
 
 
+class InjectedError(RuntimeError):
+    """an exception raised by user code (the target) inside a proposal"""
+
+
 class Interrupter:
     @staticmethod
-    def install(dist, at_call):
+    def install(dist, at_call, exc=KeyboardInterrupt):
         orig = dist.misfit
         st = {"k": 0}
 
         def misfit(m):
             st["k"] += 1
             if st["k"] == at_call:
-                raise KeyboardInterrupt
+                raise exc
             return orig(m)
 
         dist.misfit = misfit
@@ -40,20 +44,30 @@ def run_tuned(rnd, sampler_kind, interrupt=False):
         Nasty.install(dist, rnd, 0.35)
     P = rnd.choice([1, 2, 3, 7, 15, 30])
     cut = None
+    stop_kind = None
     if interrupt and P >= 3:
         per = 1 if sampler_kind == "RWMH" else 2
         cut = 1 + per * rnd.randint(1, P - 1) + rnd.randint(1, per)  # inside proposal >= 1
-        Interrupter.install(dist, cut)
+        stop_kind = rnd.choice(["KeyboardInterrupt", "KeyboardInterrupt", "InjectedError", "TimeoutError"])
+        Interrupter.install(dist, cut, exc={"KeyboardInterrupt": KeyboardInterrupt, "InjectedError": InjectedError("injected"), "TimeoutError": TimeoutError("injected")}[stop_kind])
     calls = CallLog()
     calls.wrap(dist, "misfit")
     q0 = inside_start(rnd, d, lb, ub)
     lr = rnd.choice([0.75, 1.0, 0.51, rnd.uniform(0.5001, 1.0)])
     target = rnd.choice([0.65, 0.3, 0.9])
     step0 = rnd.choice([0.1, 1.0, 1e-3, 5.0, rnd.uniform(0.01, 3)])
+    # a scalar step is a scalar however it is spelled: int, numpy.float64 (what a previous tuned run leaves in sampler.stepsize), numpy.float32
+    step_spelling = rnd.choice(["float", "float", "float", "int", "numpy.float64", "numpy.float32", "continue"])
+    if step_spelling == "int":
+        step0 = float(rnd.choice([1, 2, 3]))
     seed = rnd.randrange(1 << 30)
     desc = {"sampler": sampler_kind, "target": tdesc, "nasty": nasty, "proposals": P, "lr": lr, "target_acceptance_rate": target,
-            "stepsize": step0, "rng_seed": seed, "interrupt_at_misfit_call": cut}
-    kw = dict(autotuning=True, learning_rate=lr, target_acceptance_rate=target, stepsize=step0)
+            "stepsize": step0, "stepsize_spelling": step_spelling, "rng_seed": seed, "interrupt_at_misfit_call": cut, "stopped_by": stop_kind}
+    step_arg = {"float": step0, "int": int(step0), "numpy.float64": np.float64(step0), "numpy.float32": np.float32(step0), "continue": step0}[step_spelling]
+    if step_spelling == "numpy.float32":
+        step0 = float(np.float32(step0))
+        desc["stepsize"] = step0
+    kw = dict(autotuning=True, learning_rate=lr, target_acceptance_rate=target, stepsize=step_arg)
     if sampler_kind == "RWMH":
         Snap = snapshot_sampler_class(S.RWMH)
     else:
@@ -81,8 +95,13 @@ def run_tuned(rnd, sampler_kind, interrupt=False):
                 desc["raised"] = "earlier run: " + repr(e)
         s._v_transitions = []
         calls.calls.clear()
+        if step_spelling == "continue" and earlier and "raised" not in desc:
+            kw["stepsize"] = s.stepsize             # carry on from where the previous tuned run on this object ended
+            desc["stepsize"] = float(s.stepsize)
         try:
             s.sample(fn, dist, initial_model=q0.copy(), proposals=P, overwrite_existing_file=True, disable_progressbar=True, **kw)
+        except (InjectedError, TimeoutError) as e:   # user code raised inside a proposal: re-raised (C08); the histories must still cover the completed proposals
+            desc["reraised"] = repr(e)
         except Exception as e:  # an aborting sampler is an observation (C06/C08), not a harness failure
             desc["raised"] = repr(e)
             try:
@@ -134,7 +153,13 @@ def run(tier, seed):
         desc, s, trans, attrs = run_tuned(rnd, kind, interrupt=(i % 5 == 4))
         if "raised" in desc:
             st.case(desc, nontrivial=False)
-            st.count("sampler raised (see C06/C08)")
+            if "AssertionError" in desc["raised"] and "scalar stepsizes" in desc["raised"]:
+                # the only refusal the property allows is a learning rate outside (0.5, 1]
+                st.disagree(desc, "accepted", desc["raised"][:200], "legal scalar initial step refused")
+                findings.append(Finding("C16", f"{desc['sampler']} autotuning refused a legal scalar initial step size spelled as {desc['stepsize_spelling']}: {desc['raised'][:120]}",
+                                        {"kind": "refused-step", "sampler": desc["sampler"]}, {"oracle": "refusal", "chain": desc}))
+            else:
+                st.count("sampler raised (see C06/C08)")
             continue
         rates = rates_from(trans, kind)
         completed = attrs["columns"]  # thinning 1: one column per completed proposal
@@ -154,6 +179,7 @@ def run(tier, seed):
             st.count("interrupted")
         if desc["earlier_autotuned_runs_on_the_object"]:
             st.count("sampler object tuned before")
+        st.count(f"initial step spelled as {desc['stepsize_spelling']}")
         r = Reader(ans[3:])
         msteps = r.vec()
         mfinal = r.flt()
